@@ -2446,4 +2446,101 @@ theorem no_leakage_lemma (E : Env C) {t t' : Table C} {n n' : Nat} {tk : Name}
   rw [hc v hv, hc' v (hcv ▸ hv), ← hcv]
   simp only [Option.bind_some, List.getElem?_map, hi]
 
+/-! ## 13. custom variables are frozen inputs of the step -/
+
+/-- the values of the custom variables of one step, in request order: each
+function sees the step's dictionary plus the custom values before it.  No cache
+setting (`clear_cache_every_nbr_calc`, memory threshold) occurs: the values
+are *inputs* of everything computed later in the step. -/
+def custVals (E : Env C) : Row C → List CReq → Row C
+  | _, [] => []
+  | base, .name _ :: vs => custVals E base vs
+  | base, .fn n f :: vs => (n, E.cust f base) :: custVals E (base ++ [(n, E.cust f base)]) vs
+
+theorem runCustoms_eq (E : Env C) (cv : List CReq) (base : Row C) (hnd : (cv.map CReq.key).Nodup)
+    (hfresh : ∀ v ∈ cv, v.key ∉ keys base) : runCustoms E cv base = base ++ custVals E base cv := by
+  unfold runCustoms
+  induction cv generalizing base with
+  | nil => simp [custVals]
+  | cons v vs ih =>
+    simp only [List.map_cons, List.nodup_cons] at hnd
+    simp only [List.foldl_cons]
+    cases v with
+    | name s => exact ih base hnd.2 (fun w hw => hfresh w (by simp [hw]))
+    | fn nm f =>
+      have hn : nm ∉ keys base := hfresh (.fn nm f) (by simp)
+      simp only [dset_of_not_mem hn, custVals]
+      rw [ih _ hnd.2]
+      · simp
+      · intro w hw
+        have h1 := hfresh w (by simp [hw])
+        have h2 : w.key ≠ nm := fun e => hnd.1 (e ▸ List.mem_map.mpr ⟨w, hw, rfl⟩)
+        rw [mem_keys_snoc]
+        rintro (h | h)
+        · exact h1 h
+        · exact h2 h
+
+theorem keys_custVals_subset (E : Env C) (base : Row C) (cv : List CReq) {k : Name}
+    (hk : k ∈ keys (custVals E base cv)) : ∃ f, CReq.fn k f ∈ cv := by
+  induction cv generalizing base with
+  | nil => simp [custVals, keys] at hk
+  | cons v vs ih =>
+    cases v with
+    | name s =>
+      obtain ⟨f, hf⟩ := ih base (by simpa [custVals] using hk)
+      exact ⟨f, by simp [hf]⟩
+    | fn nm f0 =>
+      simp only [custVals, keys, List.map_cons, List.mem_cons] at hk
+      rcases hk with rfl | hk
+      · exact ⟨f0, by simp⟩
+      · obtain ⟨f, hf⟩ := ih _ hk
+        exact ⟨f, by simp [hf]⟩
+
+theorem relData_eq (E : Env C) {t : Table C} {vars : List Req} {r : Row C} (hr : keys r = keys t)
+    (hnd : ((cleanVars E t vars).map CReq.key).Nodup) :
+    relData E (cleanVars E t vars) r = r ++ custVals E r (cleanVars E t vars) := by
+  unfold relData
+  rw [loadRel_of_fresh (fun k hk => not_mem_names_of_mem_keys E (by rw [← hr]; exact hk))]
+  exact runCustoms_eq E _ r hnd (fun v hv => by rw [hr]; exact cleanVars_fresh E t vars hv)
+
+/-- every requested variable of a row is read from an `AurelCore` whose data are
+the row's inputs followed by the custom values; a built-in name is `comp` of
+exactly that dictionary -/
+theorem per_step_frozen_customs_lemma (E : Env C) {t : Table C} {n : Nat} {tk : Name} (hwf : WF t n)
+    (hn : 0 < n) (htk : temporalKey t = some tk) {vars ests : List Req} (hp : Processes E t vars ests)
+    (hnd : ((cleanVars E t vars).map CReq.key).Nodup) :
+    ∃ out, overTime E t vars ests = .ok out ∧
+      (∀ v ∈ cleanVars E t vars,
+        get? v.key out = some ((sortP E tk (rowsOf t n)).map
+          (fun r => relGet E (r ++ custVals E r (cleanVars E t vars)) v.key))) ∧
+      (∀ s, CReq.name s ∈ cleanVars E t vars →
+        get? s out = some ((sortP E tk (rowsOf t n)).map
+          (fun r => E.comp (r ++ custVals E r (cleanVars E t vars)) s))) := by
+  obtain ⟨out, hout, hcells⟩ := per_step_lemma E hwf hn htk hp
+  have hgen : ∀ v ∈ cleanVars E t vars,
+      get? v.key out = some ((sortP E tk (rowsOf t n)).map
+        (fun r => relGet E (r ++ custVals E r (cleanVars E t vars)) v.key)) := by
+    intro v hv
+    rw [hcells v hv]
+    congr 1
+    apply List.map_congr_left
+    intro r hr
+    rw [relData_eq E (keys_of_mem_sorted E hwf htk hr) hnd]
+  refine ⟨out, hout, hgen, ?_⟩
+  intro s hs
+  have := hgen (.name s) hs
+  simp only [CReq.key] at this
+  rw [this]
+  congr 1
+  apply List.map_congr_left
+  intro r hr
+  have hkr := keys_of_mem_sorted E hwf htk hr
+  have h1 : s ∉ keys r := by rw [hkr]; exact cleanVars_fresh E t vars hs
+  have h2 : s ∉ keys (custVals E r (cleanVars E t vars)) := by
+    intro hk
+    obtain ⟨f, hf⟩ := keys_custVals_subset E r _ hk
+    have := nodup_map_inj hnd hs hf rfl
+    cases this
+  rw [relGet, get?_append_right h1, get?_none_iff.mpr h2]
+
 end AurelVerif.Table
